@@ -118,6 +118,10 @@ def run(rep):
         if o.get('differ'):
             pth = rep.write_replay('eval-vs-step', {'cmd': 'eval_vs_step', 'src': p_, 'observed': o})
             rep.violation('C19/eval-vs-step/concrete', 'eval() and prepare()+step() disagree on %r: %r' % (p_, o), pth)
+    # eval() must leave the interpreter in the same environment as the step route does (which C11 decides for step):
+    # on every return path of eval - Ok or Err - the caller's environment is current again
+    from . import c11
+    c11.check_env_restoring_functions(rep, cross, specs=[('Interpreter', 'eval', False)], pid='C19')
     rep.cross = driver.cross_check(cross, 300, 'ALL', rep.tier, rep.seed)
     rep.extra['cross_checked_obligations'] = len(cross)
 
